@@ -49,6 +49,7 @@ type c09Actor struct {
 	Covert string `json:"covert,omitempty"` // ingest: "ok1" | "ok2" | "bad" (blocklisted) | "malformed"
 	Live   bool   `json:"live,omitempty"`   // ingest: verdict of this actor's liveness probe
 	Policy int    `json:"policy,omitempty"` // reload: 0 = initial policy, 1 = policy that also forbids ok2
+	AgeS   int64  `json:"age_s,omitempty"`  // sweep: this much time has passed (for every tracked registration) when the sweep starts
 }
 
 type c09Scenario struct {
@@ -59,6 +60,7 @@ type c09Scenario struct {
 type c09Case struct {
 	Scn      c09Scenario `json:"scenario"`
 	Schedule []int       `json:"schedule"` // actor index chosen at each scheduling step (missing/invalid: lowest runnable)
+	Sticky   bool        `json:"sticky,omitempty"` // beyond the schedule: stay with the actor that ran last while it is runnable
 }
 
 var c09TT = []pb.TransportType{pb.TransportType_Min, pb.TransportType_Prefix, pb.TransportType_Obfs4}
@@ -264,6 +266,15 @@ func c09RunPhase(w *c09World, rm *RegistrationManager, idx int, a c09Actor, phas
 		rm.ingestRegistration(reg)
 		return "ingested"
 	case "sweep":
+		if a.AgeS > 0 {
+			// time passes: the sweep runs AgeS seconds later (one step, nothing else runs in between)
+			r := rm.registeredDecoys
+			r.m.Lock()
+			for _, to := range r.decoysTimeouts {
+				to.registrationTime = to.registrationTime.Add(-time.Duration(a.AgeS) * time.Second)
+			}
+			r.m.Unlock()
+		}
 		rm.RemoveOldRegistrations()
 		return "swept"
 	case "lookup":
@@ -375,6 +386,24 @@ type c09Run struct {
 	Overlap   bool // two actors were inside the pipeline (between their first step and their end) at the same time
 	EvLog     []string
 	ProbeCall []int
+	StepEv    []int             // length of the event log after each scheduling step
+	Tracked   []map[string]bool // tracked keys before the first step (index 0) and after each step (nil: not observable at that point)
+}
+
+// c09TrackedKeys returns the set of tracked keys, or nil when the registry lock is held by a parked actor.
+func c09TrackedKeys(e *vEnv) map[string]bool {
+	r := e.rm.registeredDecoys
+	if !r.m.TryRLock() {
+		return nil
+	}
+	defer r.m.RUnlock()
+	out := map[string]bool{}
+	for _, m := range r.decoys {
+		for _, reg := range m {
+			out[c09KeyOf(e, reg)] = true
+		}
+	}
+	return out
 }
 
 func c09Concurrent(e *vEnv, c c09Case) (*c09Run, error) {
@@ -445,6 +474,7 @@ func c09Concurrent(e *vEnv, c c09Case) (*c09Run, error) {
 		return nil, fmt.Errorf("actors did not reach their start point")
 	}
 	step := 0
+	run.Tracked = append(run.Tracked, c09TrackedKeys(e))
 	for len(finished) < n {
 		var opts []int
 		for i := 0; i < n; i++ {
@@ -456,6 +486,13 @@ func c09Concurrent(e *vEnv, c c09Case) (*c09Run, error) {
 			return nil, fmt.Errorf("no runnable actor but %d unfinished", n-len(finished))
 		}
 		pick := opts[0]
+		if c.Sticky && step > 0 {
+			for _, o := range opts {
+				if o == run.Choices[step-1] {
+					pick = o
+				}
+			}
+		}
 		if step < len(c.Schedule) {
 			for _, o := range opts {
 				if o == c.Schedule[step] {
@@ -500,6 +537,10 @@ func c09Concurrent(e *vEnv, c c09Case) (*c09Run, error) {
 			return nil, fmt.Errorf("actor %d blocked for 10 s at step %d but finished after release (harness grace too short?)", pick, step)
 		}
 		step++
+		w.mu.Lock()
+		run.StepEv = append(run.StepEv, len(w.evlog))
+		w.mu.Unlock()
+		run.Tracked = append(run.Tracked, c09TrackedKeys(e))
 	}
 	for i := 0; i < n; i++ {
 		if run.End[i] < 0 {
@@ -658,6 +699,51 @@ func c09Eval(e *vEnv, c c09Case) (v c09Verdict, err error) {
 			return v, nil
 		}
 	}
+	// (I1') New announced at most once per lifetime of a key, a lifetime being a maximal span during
+	//       which the key is tracked (observed at the step boundaries; announcement and tracking
+	//       happen in one step when the validation step has to re-track a swept registration)
+	{
+		life := map[string]int{}
+		news := map[string]int{} // "key#life" -> New announcements
+		for _, p := range c.Scn.Pre {
+			reg, _ := c09MakeReg(e, p.Secret, p.TT, c09Coverts["ok1"])
+			k := c09KeyOf(e, reg)
+			life[k] = 1
+			if p.Valid {
+				news[fmt.Sprintf("%s#1", k)] = 1
+			}
+		}
+		prev := run.Tracked[0]
+		lo := 0
+		for st := 0; st < len(run.StepEv); st++ {
+			cur := run.Tracked[st+1]
+			if cur == nil {
+				cur = prev
+			}
+			if prev != nil {
+				for k := range cur {
+					if !prev[k] {
+						life[k]++
+					}
+				}
+			}
+			for _, l := range run.EvLog[lo:run.StepEv[st]] {
+				if strings.HasPrefix(l, "announce New ") {
+					k := strings.Fields(l)[2]
+					id := fmt.Sprintf("%s#%d", k, life[k])
+					news[id]++
+					if news[id] > 1 && v.key == "" {
+						v.key, v.msg = "announced-twice-in-one-lifetime", fmt.Sprintf("%s was announced to the detector as New %d times while it stayed tracked (lifetime %d of that key; step %d, schedule %v)", k, news[id], life[k], st, run.Trace)
+					}
+				}
+			}
+			lo = run.StepEv[st]
+			prev = cur
+		}
+		if v.key != "" {
+			return v, nil
+		}
+	}
 	// (I2) a lookup sees a registration only after it was validated (= announced New, or valid initially)
 	initiallyValid := map[string]bool{}
 	for _, p := range c.Scn.Pre {
@@ -709,6 +795,18 @@ func c09Eval(e *vEnv, c c09Case) (v c09Verdict, err error) {
 		}
 	}
 	// serialisability ----------------------------------------------------------------------------
+	// Ingest is two-phase by design (track, probe for seconds, validate). A scenario in which
+	// minutes pass while a delivery sits between its two phases (a sweep with AgeS) lets the sweeper
+	// forget the half-ingested record, which no serial order of WHOLE operations reproduces (the
+	// re-tracked record starts counting again). That is how expiry is specified (C08: forgotten
+	// entirely), not an interleaving anomaly, so such scenarios are judged by the invariants above
+	// only.
+	for _, a := range c.Scn.Actors {
+		if a.Kind == "sweep" && a.AgeS > 0 {
+			v.classes = append(v.classes, "time-passes-in-flight:invariants-only")
+			return v, nil
+		}
+	}
 	n := len(c.Scn.Actors)
 	ops := c09Ops(c.Scn)
 	var before [][2]int
